@@ -16,6 +16,8 @@
 (*         layer of Heap.tla computes for this call (same writes, same outcome): "ref-as-alg" with the route of the      *)
 (*         named deviation and whether a VALUE changed or only the identity of a container; otherwise "ref-other".       *)
 (*   alg   the observed post-heap is the Alg layer's (drift when ref holds)                                             *)
+(*   [kind |-> "proc", pc, ok, seen, pre, post]  /  [kind |-> "freshd", fam, own1, own1b, own2, cal1, cal1b, cal2, old]     *)
+(*        round 4: see CheckProc / CheckFreshDefault below                                                               *)
 (* and for a fresh event  Fresh(objs1, objs2, old).                                                                      *)
 EXTENDS Heap, Json, IOUtils
 
@@ -50,6 +52,31 @@ CheckCall(e) ==
 
 CheckFresh(e) == Fresh(ToSet(e.objs1), ToSet(e.objs2), ToSet(e.old)) \/ Say("fresh", "")
 
-Check == LET e == Events[i] IN IF e.kind = "call" THEN CheckCall(e) ELSE CheckFresh(e)
+\* round 4: a call that is handed a path, made while the process is in directory e.pc.entry.  pre / post = observed process
+\* state [cwd, cpd, env, argv, syspath, ns] (directories relative to the scratch tree), seen = << <<cwd, cpd>>, ... >> what the
+\* user code run by the call saw.  ref (verdict) = ProcFrame; alg = outcome and seen set are the ones the Alg layer computes.
+CheckProc(e) ==
+  LET alg == AlgPathCall(e.pc, e.pre)
+      asal == alg.ok = e.ok /\ alg.seen = ToSet(e.seen) /\ alg.ps = e.post
+  IN /\ ProcFrame(e.pre, e.post) \/ Say("proc-ref", Join(SetToSortedSeq(ProcChanged(e.pre, e.post))))
+     /\ asal \/ Say("proc-alg", IF alg.ok # e.ok THEN "outcome" ELSE IF alg.seen # ToSet(e.seen) THEN "seen" ELSE "state")
+\* round 4: identities of the objects built for one class family by three instantiations (twice the configuration of parse 1,
+\* once the configuration of parse 2): own* for the owner's spec, cal* found in the parameter with the instance default.
+\* ref (verdict): the owner's objects are always new; MustBeFresh(fam) => the parameter's objects are new as well.
+\* alg: they are new exactly when the Alg layer derives a spec, otherwise all of them are the one live default instance.
+CheckFreshDefault(e) ==
+  LET old == ToSet(e.old)
+      own == AllDistinct(ToSet(e.own1), ToSet(e.own1b), ToSet(e.own2), old)
+      cal == AllDistinct(ToSet(e.cal1), ToSet(e.cal1b), ToSet(e.cal2), old)
+      spec == AlgDerivesSpec(e.fam, "function")
+  IN /\ own \/ Say("freshd-ref", "owner")
+     /\ (MustBeFresh(e.fam) => cal) \/ Say("freshd-ref", "default")
+     /\ (IF spec THEN cal ELSE AllTheLive(ToSet(e.cal1), ToSet(e.cal1b), ToSet(e.cal2), old)) \/ Say("freshd-alg", IF spec THEN "shared" ELSE "not-the-live-instance")
+
+Check == LET e == Events[i] IN
+         CASE e.kind = "call" -> CheckCall(e)
+           [] e.kind = "proc" -> CheckProc(e)
+           [] e.kind = "freshd" -> CheckFreshDefault(e)
+           [] OTHER -> CheckFresh(e)
 Inv == Check \/ TRUE
 =============================================================================
